@@ -31,6 +31,12 @@ fn ipp_uri_to_string(uri: &Uri) -> String {
     format!("{}://{}{}", scheme, authority, path_and_query)
 }
 
+/// Verification hook: the HTTP(S) URL the clients contact for a given target URI.
+#[cfg(feature = "verif-hooks")]
+pub fn verif_transport_url(uri: &Uri) -> String {
+    ipp_uri_to_string(uri)
+}
+
 /// Builder to create IPP client
 pub struct IppClientBuilder<T> {
     uri: Uri,
